@@ -156,10 +156,23 @@ def worker(wid, jobs, results, lock, args):
             log = os.path.join(wd, "suite.log")
             with open(log, "w") as fh:
                 try:
-                    p = subprocess.run(["cargo", "test", "--workspace", "--no-fail-fast", "--offline", "-j", "4"], cwd=repo, stdout=fh, stderr=subprocess.STDOUT, timeout=600, env=env)
-                    rc = p.returncode
-                except subprocess.TimeoutExpired:
-                    rc = 124
+                    # a mutant can make a test print without end: cap the log (RLIMIT_FSIZE) and kill the
+                    # whole process group on a time-out so that nothing keeps the file open
+                    import resource, signal
+                    def lim():
+                        os.setsid()
+                        resource.setrlimit(resource.RLIMIT_FSIZE, (256 << 20, 256 << 20))
+                    pr = subprocess.Popen(["cargo", "test", "--workspace", "--no-fail-fast", "--offline", "-j", "4"], cwd=repo, stdout=fh, stderr=subprocess.STDOUT, env=env, preexec_fn=lim)
+                    try:
+                        rc = pr.wait(timeout=600)
+                    except subprocess.TimeoutExpired:
+                        rc = 124
+                    try:
+                        os.killpg(pr.pid, signal.SIGKILL)
+                    except ProcessLookupError:
+                        pass
+                except OSError:
+                    rc = 125
             if rc != 0:
                 rec["status"] = "killed-by-suite"
             else:
